@@ -42,6 +42,10 @@ type c12Code struct {
 	Verifier  string
 	Valid     bool // well-signed, unexpired authorization code
 	AuthAfter time.Time
+	// remint obtains a new code by the same authorization request (nil for derived, invalid codes).  A code that has
+	// been redeemed is replaced at once: whether the tree treats codes as single use or not, every later probe -
+	// positive or negative - then meets a code that is still redeemable, so no refusal is owed to an earlier success.
+	remint func() *c12Code
 }
 
 type c12Case struct {
@@ -142,24 +146,28 @@ func TestVerifC12(t *testing.T) {
 			codes = append(codes, c)
 		}
 	}
+	mk := func(name, client, user, redirect, nonce, challenge, method, verifier string) *c12Code {
+		c := authorize(name, client, user, redirect, nonce, challenge, method)
+		if c == nil {
+			return nil
+		}
+		c.Verifier = verifier
+		c.remint = func() *c12Code {
+			n := authorize(name, client, user, redirect, nonce, challenge, method)
+			if n != nil {
+				n.Verifier = verifier
+			}
+			return n
+		}
+		return c
+	}
 	for _, cl := range clients {
-		add(authorize("fresh-nochallenge:"+cl.ID, cl.ID, "alice", redir, "nonce-"+cl.ID, "", ""))
-		c := authorize("fresh-S256:"+cl.ID, cl.ID, "bob", redir, "nonce2-"+cl.ID, c12S256(verifierGood), "S256")
-		if c != nil {
-			c.Verifier = verifierGood
-		}
-		add(c)
-		c = authorize("fresh-defaultmethod:"+cl.ID, cl.ID, "alice", redir, "nonce3-"+cl.ID, verifierGood, "")
-		if c != nil {
-			c.Verifier = verifierGood
-		}
-		add(c)
+		add(mk("fresh-nochallenge:"+cl.ID, cl.ID, "alice", redir, "nonce-"+cl.ID, "", "", ""))
+		add(mk("fresh-S256:"+cl.ID, cl.ID, "bob", redir, "nonce2-"+cl.ID, c12S256(verifierGood), "S256", verifierGood))
+		add(mk("fresh-defaultmethod:"+cl.ID, cl.ID, "alice", redir, "nonce3-"+cl.ID, verifierGood, "", verifierGood))
 		// methods the server must not silently weaken
 		for _, m := range []string{"plain", "S512", "none"} {
-			if cc := authorize("fresh-"+m+":"+cl.ID, cl.ID, "alice", redir, "nonce4-"+cl.ID, verifierGood, m); cc != nil {
-				cc.Verifier = verifierGood
-				add(cc)
-			}
+			add(mk("fresh-"+m+":"+cl.ID, cl.ID, "alice", redir, "nonce4-"+cl.ID, verifierGood, m, verifierGood))
 		}
 	}
 	// derived invalid codes
@@ -184,22 +192,27 @@ func TestVerifC12(t *testing.T) {
 				exp["nbf"] = exp["iat"]
 			}
 			d := *c
+			d.remint = nil
 			d.Name, d.Code, d.Valid = fmt.Sprintf("expired-%s:%s", age, c.Client), verifMint(exp, ca), false
 			derived = append(derived, &d)
 		}
 		d2 := *c
+		d2.remint = nil
 		d2.Name, d2.Code, d2.Valid = "foreignkey:"+c.Client, verifMint(claims, verifSigner("foreign_rsa2048")), false
 		derived = append(derived, &d2)
 		h, pp, s, _ := verifSplitJWS(c.Code)
 		p2 := []byte(strings.Replace(string(pp), `"username":"`+c.User+`"`, `"username":"root"`, 1))
 		d3 := *c
+		d3.remint = nil
 		d3.Name, d3.Code, d3.Valid = "tampered-username:"+c.Client, verifJoinJWS(h, p2, s), false
 		derived = append(derived, &d3)
 		d4 := *c
+		d4.remint = nil
 		d4.Name, d4.Code, d4.Valid = "alg-none:"+c.Client, verifMintNone(claims), false
 		derived = append(derived, &d4)
 		// a session cookie is not an authorization code
 		d5 := *c
+		d5.remint = nil
 		d5.Name, d5.Code, d5.Valid = "session-cookie-as-code:"+c.Client, sess[c.User], false
 		derived = append(derived, &d5)
 	}
@@ -328,6 +341,7 @@ func TestVerifC12(t *testing.T) {
 							}
 							rep.Count("released", 1)
 							rep.Count("released_"+kind, 1)
+							redeemed := code.Code
 							// decode the tokens
 							var tr struct {
 								AccessToken string `json:"access_token"`
@@ -368,7 +382,7 @@ func TestVerifC12(t *testing.T) {
 								bad = append(bad, fmt.Sprintf("userinfo(access token) = %d sub=%v", ui.Code, info["sub"]))
 							}
 							// and nothing else does
-							for nm, tk := range map[string]string{"id_token": tr.IDToken, "code": code.Code, "session-cookie": sess[code.User]} {
+							for nm, tk := range map[string]string{"id_token": tr.IDToken, "code": redeemed, "session-cookie": sess[code.User]} {
 								r2 := env.Do(verifReq{Path: "/idp/oauth2/userinfo", Header: map[string]string{"Authorization": "Bearer " + tk}}.Build())
 								rep.Eval("userinfo-with-" + nm + fmt.Sprintf("|%d", r2.Code/100))
 								if r2.Code == 200 {
@@ -381,6 +395,12 @@ func TestVerifC12(t *testing.T) {
 							} else {
 								rep.Count("tokens_decoded_ok", 1)
 								rep.Sample("released:"+kind+":"+placement, 1, cs)
+							}
+							if code.remint != nil {
+								if n := code.remint(); n != nil {
+									code.Code, code.AuthAfter = n.Code, n.AuthAfter
+									rep.Count("codes_reminted_after_redemption", 1)
+								}
 							}
 						}
 					}
